@@ -191,6 +191,22 @@ def allApprox (c : Codec) (opts : String) : List Val → List Val → Bool
   | a :: as, b :: bs => c.approx opts a b && allApprox c opts as bs
   | _, _ => false
 
+/-- streams the encoder oracles judge: any well-formed stream for the binary formats; for
+JSON one value, or several top-level containers (top-level scalars written back to back have
+no separator in JSON: `1` `2` is the text `12`) -/
+def judgedStream (c : Codec) (evs : List Ev) : Bool :=
+  if c.name != "json" then WF evs
+  else WF1 evs || (WF evs && (
+    let rec tops (depth : Nat) (es : List Ev) (ok : Bool) : Bool :=
+      match es with
+      | [] => ok
+      | e :: rest =>
+        match e with
+        | .arrStart _ _ | .objStart _ _ => tops (depth + 1) rest ok
+        | .arrEnd | .objEnd => tops (depth - 1) rest ok
+        | _ => tops depth rest (ok && depth > 0)
+    tops 0 evs true))
+
 def isBad (verdict : String) : Bool := verdict == "panic" || verdict == "hang" || verdict == "crash"
 
 def showVals (vs : Option (List Val)) : String :=
@@ -252,7 +268,7 @@ def encOracle (c : Codec) (opts : String) (failFrom : Int) (xs : List XEv) (impl
       if wf == "wf=1" && res == "ok" then [s!"C16 {c.name}-encoder-loses-write-error failFrom={failFrom}"] else []
     else
       let evs := expandAll xs
-      if !WF evs then [] else
+      if !judgedStream c evs then [] else
       if res != "ok" then
         if c.mayRefuse opts evs then [] else [s!"C07 {c.name}-encoder-error-on-well-formed-stream {res}"]
       else
@@ -272,7 +288,7 @@ def rtOracle (c : Codec) (opts : String) (xs : List XEv) (impl : String) : List 
   match impl.splitOn "|" with
   | [_, res, evS, verdict] =>
     let evs := expandAll xs
-    if !WF evs then [] else
+    if !judgedStream c evs then [] else
     if res != "ok" then
       if c.mayRefuse opts evs then [] else [s!"C01 {c.name}-encoder-error-on-well-formed-stream {res}"]
     else if isBad verdict then [s!"C01 {c.name}-parse-{verdict}-on-own-output"]
